@@ -138,3 +138,10 @@ Example C12_ex_dfxp :
   /\ read_region (layout_attrs node)
      = Ok (mkLayout (Some (mkPoint (s (617 # 50)) (s (50 # 1)))) None None (Some (mkAlign (Some HLeft) (Some VBottom))) None).
 Proof. split; vm_compute; reflexivity. Qed.
+
+(* and the check's oracle for the round trip (values within 1/200 of the exact ones, defaults filled) accepts it *)
+Theorem C12_dfxp_roundtrip_meets_oracle : forall l c n e,
+  dfxp_choice None l c n = Some e -> layout_truthy e = true -> has_region e = true -> nonneg_layout e ->
+  exists r, read_region (layout_attrs e) = Ok r /\ ok_effective l c n (Some r) = true.
+Proof. exact ok_effective_model. Qed.
+Print Assumptions C12_dfxp_roundtrip_meets_oracle.
